@@ -36,7 +36,8 @@ CLAIMED = {
         "permutation invariant for the mean functional (via uniqueness of the optimal fit among functions of the forecast), unconditionally for squared error; discrimination and uncertainty are unchanged by any strictly increasing relabelling of the forecasts; "
         "explicit = inferred functional/level, mean ignores level, median = quantile 1/2. Tie as C06; the judge evaluates permutation, replication (integer weights vs repeated rows), relabelling (2x+1, x^3, exp), column independence and aliases "
         "on the implementation for every generated case. Two genuine defects repaired (fixes d3b9226 median alias, 04732ba repair path located by value).",
-   note="Partial: permutation invariance of mcb/dsc for expectile and quantile scores and on the repair path, and replication, are metamorphic tests by the judge (not theorems).",
+   note="Permutation invariance of all four columns (every functional, incl. the repair path of the repaired code) and replication by integer weights (mean, expectile) are proved, assuming both calls succeed "
+        "(transfer of success/exception class between row orders is judged on the implementation, not proved).",
    technique="Coq proof (Permutation, uniqueness of the isotonic fit among functions of X) + whole-function skeleton + correspondence + metamorphic judge", ref="4 C07"),
  "C19": dict(
    text="Mostly correspondence (stated plainly): model/Plots.v composes the IsoFit, elementary-score and Bias models; proved in Coq (axiom-free): diagonal spans all predictions, reliability vertices lie on the fit, are monotone, span the column, "
@@ -59,7 +60,7 @@ CLAIMED = {
         "np.interp with constant fill): prediction at each training X equals the fitted value of that row, equal X gives equal prediction (all four functionals), optimality among ALL REAL monotone functions of X "
         "(mean, expectile, quantile, median; world R), predictions are total/finite, monotone in the fitted direction for every pair of queries, between neighbouring fitted values, and constant beyond the training range. "
         "Tie: skeleton+leaves of the class and correspondence (thresholds vertex-exact on exact inputs, predictions 1e-9, 4 X dtypes). A genuine defect (NaN predictions for non-float64 X with ties) was found and repaired (fix 7007a15).",
-   note="Partial: row-order independence is proved only when rows that tie in the sort order are identical (fit_perm_partial); otherwise it is judged by refitting shuffled rows. scikit-learn (mean, out_of_bounds='clip') "
+   note="Row-order independence is proved in full (thresholds and predictions at every query point, every functional, both directions, with or without weights). scikit-learn (mean, out_of_bounds='clip') "
         "is compared on every mean case as a third opinion, not modelled. scipy interp1d is modelled by np.interp semantics.",
    technique="Coq proof (sort, thresholds, interpolation on top of the certificate) + skeleton/leaf translation + vm_compute correspondence", ref="4 C11"),
  "C13": dict(
